@@ -717,3 +717,35 @@ def check_rounding(case, ctx):
 
 
 SUBS.append(Sub('rounding', check_rounding, enumerate=rounding_cases, shards_quick=1, shards_thorough=1))
+
+
+# --------------------------------------------------------------------------- \" inside a single-quoted string (listed finding, pinned by the suite)
+
+
+def otherquote_cases(tier):
+    for src in ["'a\\\"b'", "url('a\\\"b')", "url(a\\\"b)", "'\\\"'"]:
+        yield {'src': src}
+
+
+def check_otherquote(case, ctx):
+    src = case['src']
+    want = token_content(src)
+    saved = cssutils.log.raiseExceptions
+    cssutils.log.raiseExceptions = False
+    try:
+        with lib('text'):
+            out = PropertyValue(src).cssText
+            back = PropertyValue(out).cssText
+        ctx.case(src, True, {'source': src, 'output': out})
+        ok = back == out
+        try:
+            ok = ok and token_content(out) == want
+        except Exception:  # noqa: BLE001
+            ok = False
+        if not ok:
+            raise Violation('text:escaped-double-quote-reescaped', f'{src!r} denotes {want!r}; written {out!r}, which reparses to {back!r}')
+    finally:
+        cssutils.log.raiseExceptions = saved
+
+
+SUBS.append(Sub('otherquote', check_otherquote, enumerate=otherquote_cases, shards_quick=1, shards_thorough=1))
